@@ -206,6 +206,11 @@ func DNSName() *rapid.Generator[string] {
 			if i > 0 {
 				s += "."
 			}
+			if rapid.IntRange(0, 3).Draw(t, "protolabel") == 0 {
+				// host names that look like multiaddr protocol names: text-based shortcuts must not be fooled
+				s += rapid.SampledFrom([]string{"http", "https", "httpbin", "http-path", "tls", "tcp", "udp", "p2p", "ip4", "quic-v1", "ws", "wss", "dns4"}).Draw(t, "plabel")
+				continue
+			}
 			s += rapid.StringMatching(`[a-z][a-z0-9-]{0,8}[a-z0-9]`).Draw(t, "label")
 		}
 		if s == "localhost" || net.ParseIP(s) != nil {
